@@ -526,11 +526,13 @@ where
             .collect();
         let graph_number = &dfs_pre_order;
 
+        // Only vertices reachable from the root have a DFS number; unreachable vertices have no
+        // dominators and take no part in the computation.
         let mut ancestor: FxHashMap<usize, Option<usize>> = FxHashMap::default();
         let mut label: FxHashMap<usize, usize> = FxHashMap::default();
-        for &vertex in self.vertices.keys() {
+        for (&vertex, &number) in &dfs_number {
             ancestor.insert(vertex, None);
-            label.insert(vertex, dfs_number[&vertex]);
+            label.insert(vertex, number);
         }
 
         // Compute semidominators in reverse preorder (without root)
@@ -539,6 +541,10 @@ where
             let mut min_semi = usize::MAX;
 
             for &pred in &self.predecessors[&vertex] {
+                if !dfs_number.contains_key(&pred) {
+                    // predecessor unreachable from the root: no path from the root goes through it
+                    continue;
+                }
                 if ancestor[&pred].is_some() {
                     compress(&mut ancestor, &mut label, pred);
                 }
